@@ -144,6 +144,37 @@ theorem spawns_eq_firsts {cap : Nat} (hc : 0 < cap) (h : List α) (hw : WindowOK
     spawns cap h = firsts h := by
   simp [spawns, foldl_step_eq hc h hw]
 
+/-- without any premise on the history: the cache component of the loop state is the LRU content -/
+theorem foldl_step_fst (cap : Nat) (h : List α) : (h.foldl (step cap) ([], [])).1 = Lru.after cap h := by
+  induction h using Lru.rev_induction with
+  | nil => simp [Lru.after]
+  | append_singleton p x ih =>
+    rw [List.foldl_append, Lru.after_append_singleton, ← ih]
+    simp [step]
+
+theorem spawns_append_singleton (cap : Nat) (p : List α) (x : α) :
+    spawns cap (p ++ [x]) = if x ∈ Lru.after cap p then spawns cap p else spawns cap p ++ [x] := by
+  unfold spawns
+  rw [List.foldl_append, ← foldl_step_fst cap p]
+  simp [step]
+
+/-- without any premise on the history: exactly the listed IDs are forwarded (each at least once) -/
+theorem mem_spawns (cap : Nat) (h : List α) (y : α) : y ∈ spawns cap h ↔ y ∈ h := by
+  induction h using Lru.rev_induction with
+  | nil => simp [spawns]
+  | append_singleton p x ih =>
+    rw [spawns_append_singleton]
+    by_cases hx : x ∈ Lru.after cap p
+    · rw [if_pos hx, ih]
+      have hxp : x ∈ p := mem_of_mem_after hx
+      constructor
+      · intro hy; simp [hy]
+      · intro hy
+        rcases List.mem_append.1 hy with hy | hy
+        · exact hy
+        · simp at hy; subst hy; exact hxp
+    · rw [if_neg hx]; simp [ih]
+
 theorem count_firsts (h : List α) (x : α) : (firsts h).count x = if x ∈ h then 1 else 0 := by
   split
   · next hx =>
